@@ -57,6 +57,11 @@ func runC08(c *sim.Ctx) *sim.Violation {
 		frame, fm = ref.Encode(a)
 		c.Count("frames.from-stub-encoder")
 	}
+	if t.Bool(1, 6) {
+		frame = overlongRL(frame, 1+t.Int(2)) // cut offsets inside a multi-byte header also for small frames
+		fm = nil
+		c.Count("probe.non-minimal-multi-byte-remaining-length")
+	}
 	L := len(frame)
 	h := hdrLen(frame)
 	typ := typeName(frame[0] >> 4)
